@@ -35,6 +35,9 @@ func c05Gen(r *driver.Rand, thorough bool) *driver.Plan {
 	}
 	genSched(r, p)
 	genEnvPaces(r, p, 1, 3)
+	if r.Chance(1, 8) {
+		p.SetX("uses", 2) // the stage is used twice in a row in one run
+	}
 	return p
 }
 
@@ -84,9 +87,11 @@ func c05Enum(thorough bool) []*driver.Plan {
 	return out
 }
 
-func c05Build(e *driver.Env) {
+func c05BuildOne(e *driver.Env) {
 	e.Data = BuildStage(e, "C05.a")
 }
+
+func c05Build(e *driver.Env) { driver.Phased(e, c05BuildOne, c05Final) }
 
 func c05Final(e *driver.Env) {
 	s := e.Data.(*Sys)
